@@ -602,13 +602,14 @@ class Program:
         self.children = {}      # parent fn name -> [Fn]
         self.impl_cache = {}
         self.resolve_cache = {}
+        self.assoc_consts = {}
 
     def load_crate(self, crate, mir_path, crate_dir):
         fns, allocs = parse_file(mir_path, crate)
         self.crates[crate] = crate_dir
-        for name, fn in fns.items():
-            self.fns[(crate, name)] = fn
-            self.by_name.setdefault(name, []).append(fn)
+        for key, fn in fns.items():
+            self.fns[(crate, key)] = fn
+            self.by_name.setdefault(fn.name, []).append(fn)
             fn.crate = crate
         for k, v in allocs.items():
             self.allocs[(crate, k)] = v
@@ -642,7 +643,17 @@ class Program:
         return info
 
     def _index(self, crate, fns):
-        for name, fn in fns.items():
+        for key, fn in fns.items():
+            name = fn.name
+            if fn.kind == "const":
+                ms = list(self._re_impl_seg.finditer(name))
+                if ms and "::" in name[ms[-1].end():] and "promoted[" not in name:
+                    rest = name[ms[-1].end() + 2:]
+                    if "::" not in rest:
+                        trait, selfty = self.impl_info(crate, ms[-1])
+                        if selfty and "$" not in selfty:
+                            self.assoc_consts.setdefault((last_ident(selfty), rest), []).append(fn)
+                continue
             if fn.kind != "fn":
                 continue
             # parent/children relation for closures
@@ -659,6 +670,12 @@ class Program:
                 if rest.startswith("::") and "::" not in rest[2:]:
                     method = rest[2:]
                     trait, selfty = self.impl_info(crate, last)
+                    if trait:
+                        trait = trait.replace("$crate::", "")
+                    if not selfty or "$" in selfty or (trait and "$" in trait):
+                        t0 = trait if (trait and "$" not in trait) else None
+                        _, selfty = self.guess_self(fn)
+                        trait = t0
                     if selfty:
                         tl = last_ident(trait) if trait else None
                         fn.impl_trait = trait
@@ -667,6 +684,28 @@ class Program:
                 continue
             seg = name.split("::")[-1]
             self.free.setdefault(seg, []).append(fn)
+
+    @staticmethod
+    def guess_self(fn):
+        """macro-generated impls (bitflags!, ...): infer Self from the signature"""
+        def base(t):
+            t = t.strip()
+            t = re.sub(r"^(&(?:'[a-z_]+ )?(?:mut )?)+", "", t)
+            m = re.match(r"^(?:std::option::)?Option<(.*)>$", t)
+            if m:
+                t = m.group(1)
+            m = re.match(r"^(?:std::result::)?Result<(.*), .*>$", t)
+            if m:
+                t = m.group(1)
+            return t
+        if fn.arg_types:
+            t = base(fn.arg_types[0])
+            if re.fullmatch(r"[A-Za-z_][A-Za-z0-9_:]*", t) and not int_type(t) and t not in ("bool", "str"):
+                return None, t
+        t = base(fn.ret_type or "")
+        if re.fullmatch(r"[A-Za-z_][A-Za-z0-9_:]*", t) and not int_type(t) and t not in ("bool", "str"):
+            return None, t
+        return None, None
 
     # ---- callee resolution -------------------------------------------------
     def resolve(self, callee, cur_fn=None):
@@ -715,6 +754,18 @@ class Program:
                 if len(cands) == 1:
                     return cands[0]
                 return None
+        m = re.search(r"<impl ([^<>]*(?:<[^<>]*>)?[^<>]*)>::(\w+)(?:::<.*>)?$", c)
+        if m:
+            inner, method = m.group(1), m.group(2)
+            if " for " in inner:
+                trait, ty = inner.split(" for ", 1)
+                tl = last_ident(trait)
+                cands = [f for (t, f) in self.methods.get((last_ident(ty), method), []) if t == tl]
+            else:
+                cands = [f for (t, f) in self.methods.get((last_ident(inner), method), []) if t is None]
+            if len(cands) >= 1:
+                return cands[0]
+            return None
         path = strip_generics(c)
         segs = path.split("::")
         if len(segs) >= 2:
@@ -747,6 +798,22 @@ class Program:
             elif depth == 0 and s.startswith(" as ", i):
                 return i
         return None
+
+    def pretty(self, name):
+        """stable, line-number-free name of a MIR body: `<Type as Trait>::method` / `Type::method` / path"""
+        if name is None:
+            return "?"
+        base = re.sub(r"(::\{closure#\d+\})+$", "", name)
+        suffix = name[len(base):]
+        for fn in self.by_name.get(base, []):
+            st = getattr(fn, "impl_self", None)
+            if st:
+                method = base.split("::")[-1]
+                tr = getattr(fn, "impl_trait", None)
+                if tr:
+                    return "<%s as %s>::%s%s" % (last_ident(st), last_ident(tr), method, suffix)
+                return "%s::%s%s" % (last_ident(st), method, suffix)
+        return re.sub(r"<impl at [^>]*?([^/>]*\.rs):[\d: ]*>", r"<impl in \1>", name)
 
     def closure_body(self, cur_fn, span, kind):
         kids = self.children.get((cur_fn.crate, cur_fn.name), [])
@@ -1045,6 +1112,15 @@ class Engine:
         if ev:
             return EnumV(ev[0], ev[1], ev[2], [])
         segs = name.split("::")
+        if len(segs) >= 2:
+            ac = self.program.assoc_consts.get((segs[-2], segs[-1]), [])
+            if len(ac) == 1:
+                return self.eval_const_body(ac[0])
+        m = re.match(r"^<(.*) as (.*)>::(\w+)$", t)
+        if m:
+            ac = self.program.assoc_consts.get((last_ident(m.group(1)), m.group(3)), [])
+            if len(ac) == 1:
+                return self.eval_const_body(ac[0])
         # named const item in the repo (suffix match)
         cands = [f for (cr, n), f in self.program.fns.items() if f.kind == "const" and (n == name or n.endswith("::" + segs[-1]) and n.split("::")[-1] == segs[-1])]
         exact = [f for f in cands if f.name == name or name.endswith("::" + f.name) or f.name.endswith("::" + name)]
@@ -1063,7 +1139,7 @@ class Engine:
         return FnItem(ty)
 
     def eval_const_body(self, fn):
-        key = (fn.crate, fn.name)
+        key = (fn.crate, fn.key)
         if key in self.const_cache:
             return deep_copy(self.const_cache[key])
         if fn.simple_const is not None:
@@ -1400,7 +1476,7 @@ class Engine:
             frame.locals[i + 1] = Cell(a)
         visits = {}
         bb = 0
-        hit = self.stats.blocks_hit.setdefault((fn.crate, fn.name), set())
+        hit = self.stats.blocks_hit.setdefault((fn.crate, fn.key), set())
         st = self.stats
         while True:
             blk = fn.blocks[bb]
